@@ -1,4 +1,4 @@
-import MgpuProofs.C09Sys3
+import MgpuProofs.C09Sys4
 import MgpuProofs.Props.C09
 import MgpuProofs.Props.C09CU
 import MgpuProofs.Props.C09Held
@@ -182,6 +182,39 @@ example : SOp.launch ⟨7, 64, 64, 16, 4, 256⟩ ∈ demoSOps ∧ (sLaunchIds de
     ((srun demoSys demoSOps).cu 0).pools = [[], []] ∧
     (srun demoSys (demoSOps.take 7)).cp.log.length = 1 :=
   ⟨by unfold demoSOps; exact List.mem_cons_self, by decide⟩
+
+/-- **The ports never hold more than their capacity; the free-slot counters are exact.** In every
+    state of every closed run the counter the dispatchers read before sending a `MapWGReq`
+    (`cuRoom`) is the capacity of the `ToCUs` buffer minus the `MapWGReq`s sent and not yet
+    delivered, the counter read before a `LaunchKernelRsp` (`drvRoom`) is the capacity of
+    `ToDriver` minus the responses not yet retrieved; every delivered request is a request of the
+    trace, so neither counter exceeds its capacity and the number of messages in the `ToCUs` wire is
+    `capM − cuRoom`. (In the open model `cuRoom` / `drvRoom` were arbitrary numbers set by the
+    environment.) -/
+theorem closed_loop_ports_within_capacity (cfg : Cfg) (nd : Nat) (pool : List CU) (caps : Nat → List Nat)
+    (room capM capD : Nat) (ops : List SOp)
+    (s : Sys) (hs : s = srun (sinit cfg nd pool caps room capM capD) ops) :
+    s.cp.cuRoom + (reqsOf s.cp.log).length = capM + s.delivered.length ∧
+    s.cp.drvRoom + rspTotal s.cp.log = capD + s.rspTaken ∧
+    (∀ r ∈ s.delivered, r ∈ reqsOf s.cp.log) ∧
+    s.delivered.length ≤ (reqsOf s.cp.log).length ∧ s.cp.cuRoom ≤ capM := by
+  subst hs
+  have hsi := SI_run (SI_init cfg nd pool caps room capM capD) ops
+  obtain ⟨h1, h2⟩ := Rooms_run (SI_init cfg nd pool caps room capM capD)
+    (Rooms_init cfg nd pool caps room capM capD) ops
+  have hsub : ∀ r ∈ (srun (sinit cfg nd pool caps room capM capD) ops).delivered,
+      r ∈ reqsOf (srun (sinit cfg nd pool caps room capM capD) ops).cp.log := by
+    intro r hr
+    obtain ⟨c, a, b, d, he⟩ := hsi.fresh r hr
+    exact mem_reqsOf _ _ _ _ _ _ he
+  have hle := length_le_of_nodup_subset _ _ hsi.dnodup hsub
+  exact ⟨h1, h2, hsub, hle, by omega⟩
+
+example : let s := srun demoSys (demoSOps.take 3)
+    s.cp.cuRoom = 1 ∧ (reqsOf s.cp.log).length = 1 ∧ s.delivered = [] := by decide
+
+example : let s := srun demoSys demoSOps
+    s.cp.cuRoom = 2 ∧ s.cp.drvRoom = 2 ∧ rspTotal s.cp.log = 1 ∧ s.rspTaken = 1 ∧ s.delivered = [0] := by decide
 
 /-- **Termination of the closed loop under a fair schedule (partial: fairness is stated at the command
     processor's ports).** Pool initially without residents and satisfying the resource invariant, at
